@@ -146,4 +146,21 @@ theorem exists_margin {box : Idx} {A : List Idx} :
         exact ih _ (by subst hn; exact dec_total_lt i j h1) (i.dec j) rfl h2
           (Idx.le_trans (Idx.dec_le i j) hib)
 
+
+/-- active ∪ candidate is downward closed as well (candidates are margin points: all their backward neighbours are active) -/
+theorem Inv.downAC {box : Idx} {st : IState} (h : Inv box st) :
+    ∀ s ∈ st.active ++ st.cand, ∀ j, Idx.le j s = true → j ∈ st.active ++ st.cand := by
+  intro s hs j hj
+  rcases List.mem_append.mp hs with hA | hC
+  · exact List.mem_append_left _ (h.down s hA j hj)
+  · by_cases hjs : j = s
+    · subst hjs; exact hs
+    · have hne : st.active ≠ [] := fun e => by rw [h.candEmpty e] at hC; simp at hC
+      have hm := (h.candMargin hne s).mp hC
+      rw [inMargin_iff] at hm
+      obtain ⟨k, hk, hk1, hle⟩ := Idx.le_dec_of_le_of_ne hj hjs
+      rcases (backIn_iff.mp hm.2.2) k hk with h0 | hdec
+      · omega
+      · exact List.mem_append_left _ (h.down _ hdec j hle)
+
 end Amisc
